@@ -14,6 +14,7 @@ hand-written one (coq/EventList/GenAgree.v); see c01lib.EventListTree.
 from __future__ import annotations
 
 import itertools
+from fractions import Fraction
 import random
 import sys
 from pathlib import Path
@@ -35,6 +36,8 @@ def gen_history(rng: random.Random, kind: str):
     pool = []
     for _ in range(m):
         t4 = rng.randint(0, tspan * 2)          # time in quarters
+        if kind == "huge":
+            t4 -= 3                              # offset from 2**53, also negative (see make_time)
         prio = rng.choice([5, 5, 5, 1, 10, rng.randint(1, 10)])
         pool.append((t4, prio))
     n = rng.randint(5, 40)
@@ -92,11 +95,27 @@ def make_time(kind: str, t4: int, idx: int):
         return Duration(t4 / 4.0, "min")
     if kind == "dur_mix":
         return Duration(t4 / 4.0, "h") if idx % 2 else Duration(t4 * 900.0, "s")
+    if kind == "huge":
+        # legal times beyond 2**53 (e.g. epoch nanoseconds): ints 2**53 + k, where neighbouring ints are no longer
+        # distinct as floats, and -- every third event -- a float of that magnitude (exactly representable: the
+        # spacing of binary64 is 1 below 2**53 and 2 above).  Python compares int/int and int/float exactly.
+        return float(HUGE + huge_offset(t4, idx)) if idx % 3 == 2 else HUGE + t4
     raise ValueError(kind)
 
 
-def time_scaled(kind: str, t4: int) -> int:
+HUGE = 2 ** 53
+
+
+def huge_offset(t4: int, idx: int) -> int:
+    if idx % 3 == 2 and t4 > 0:
+        return 2 * (t4 // 2)
+    return t4
+
+
+def time_scaled(kind: str, t4: int, idx: int = 0) -> int:
     """time * 1024 as an integer (the model's Z time)."""
+    if kind == "huge":
+        return (HUGE + huge_offset(t4, idx)) * 1024
     if kind == "int":
         return t4 * 1024
     if kind in ("float", "mixed", "dur_s"):
@@ -127,7 +146,9 @@ def run_impl(hist, drain_every_step=False):
            for i, (t4, prio) in enumerate(pool)]
     # model time must be exact
     for i, (t4, _) in enumerate(pool):
-        assert float(evs[i].time) * 1024 == time_scaled(kind, t4), (kind, t4, evs[i].time)
+        tv = evs[i].time
+        exact = Fraction(tv) if isinstance(tv, int) else Fraction(float(tv))       # no rounding on the way
+        assert exact * 1024 == time_scaled(kind, t4, i), (kind, t4, evs[i].time)
 
     def ident(e):
         if e is None:
@@ -256,7 +277,7 @@ def pack_codes(codes):
 # ------------------------------------------------------------------ oracle (independent of the Coq model)
 def key_of(hist, i):
     t4, prio = hist["pool"][i]
-    return (time_scaled(hist["kind"], t4), -prio, i)
+    return (time_scaled(hist["kind"], t4, i), -prio, i)
 
 
 def oracle(hist, outs, final_drain, step_drains):
@@ -402,7 +423,7 @@ def main(tier: str) -> int:
                        "(translator/py2gallina_eventlist.py)"]
     C.use_repo_sources()
     rng = random.Random(run.seed * 7919 + 1)
-    kinds = ["int", "float", "mixed", "dur_s", "dur_min", "dur_mix"]
+    kinds = ["int", "float", "mixed", "dur_s", "dur_min", "dur_mix", "huge"]
     n_random = 3000 if tier == "quick" else 40000
     hists = []
     # corpus first
@@ -449,7 +470,7 @@ def main(tier: str) -> int:
         cases.append((h, outs, dr))
     run.cov["evaluations"] = len(cases)
     run.cov["distinct_nontrivial"] = len(nontrivial)
-    run.cov["rule"] = ("random histories (len 5-40, 3-9 events, heavy time/priority ties, int/float/mixed/Duration times) "
+    run.cov["rule"] = ("random histories (len 5-40, 3-9 events, heavy time/priority ties, int/float/mixed/Duration times, and int/float times around 2**53) "
                        f"+ all histories of length <= {4 if tier == 'quick' else 5} over 4 events and add/remove/pop; "
                        "non-trivial = distinct history containing a removal from an interior position (>=3 pending, not the minimum) "
                        "followed by >= 2 successful pops")
@@ -502,9 +523,10 @@ def main(tier: str) -> int:
         small = shrink(h, failing)
         o, d, s = run_impl(small, drain_every_step=True)
         b, _ = oracle(small, o, d, s)
-        run.violation(sig, (b or (sig, what))[1], {"history": small, "impl_outputs": o, "final_drain": d,
+        run.violation(sig, (b or (sig, what))[1], {"history": small, "events": describe_events(small), "impl_outputs": o, "final_drain": d,
                                                    "how": "replay the ops on pydsol.core.eventlist.EventListHeap with SimEvents "
-                                                          "(time = pool[i][0]/4 in the given kind, priority = pool[i][1])"})
+                                                          "(event i as listed under `events`: time = make_time(kind, pool[i][0], i) of harness/c01.py, i.e. pool[i][0]/4 in the given kind, "
+                                                          "2**53 + offset for kind huge; priority = pool[i][1])"})
     elif impl_fail:
         h, (sig, what, (i, j)), _ = impl_fail
         small, bad = cmp_hist(h), (sig, what, (i, j))
